@@ -85,7 +85,50 @@ def correspondence(rep, ctx):
     nseq = 600 if thorough else 70
     bad = run_sequences(rep, ctx, "c08-float", nseq, 12, hp=False)
     bad += run_sequences(rep, ctx, "c08-hp", max(12, nseq // 5), 12, hp=True)
+    bad += duplicate_matrix(rep, ctx)
     rep.notes["mismatches"] = bad
+
+
+def duplicate_matrix(rep, ctx):
+    """every ordered pair of key kinds naming ONE nuclide in one argument x {constructor, add, subtract} x both classes:
+    the call is refused with ValueError and the target keeps its amounts (no supplied amount is silently discarded)"""
+    rd = ctx.rd
+    bad = 0
+    for nm in ("H-3", "Cs-137", "Ba-137m"):
+        nuc = rd.Nuclide(nm)
+        el, rest = nm.split("-")
+        kinds = {"canonical": nm, "no-hyphen": el + rest, "mass-first": rest + el, "spaced": f" {el} {rest}", "id": nuc.id, "Nuclide": nuc}
+        for ka, a in kinds.items():
+            for kb, b in kinds.items():
+                if ka == kb:
+                    continue
+                for C in (rd.Inventory, rd.InventoryHP):
+                    for op in ("ctor", "add", "subtract"):
+                        arg = {a: 1000, b: 24}
+                        desc = f"{C.__name__} {op} {{{ka} {a!r}: 1000, {kb} {b!r}: 24}}"
+                        rep.case(("dup-matrix", nm, ka, kb, C.__name__, op))
+                        rep.dist("duplicate-matrix")
+                        try:
+                            if op == "ctor":
+                                inv = C(dict(arg), "num")
+                                got = dict(inv.contents)
+                            else:
+                                inv = C({nm: 5000}, "num")
+                                getattr(inv, op)(dict(arg), "num")
+                                got = dict(inv.contents)
+                            bad += 1
+                            if bad <= 3:
+                                rep.violation("failing-input", f"{desc}: accepted, result {got!r} — one of the two supplied amounts "
+                                              "is silently discarded", {"case": desc}, True)
+                        except ValueError:
+                            if op != "ctor" and float(inv.contents[nm]) != 5000.0:
+                                bad += 1
+                                rep.violation("failing-input", f"{desc}: refused, but the inventory now holds {inv.contents!r}", {"case": desc}, True)
+                        except Exception as e:  # noqa: BLE001
+                            bad += 1
+                            if bad <= 3:
+                                rep.violation("failing-input", f"{desc}: raised {type(e).__name__}: {e}", {"case": desc}, True)
+    return bad
 
 
 def search(rep, ctx) -> bool:
